@@ -1650,3 +1650,12 @@ package query
 //@   loop 2 invariant i < lagIdx ==> expr.IgnoreNulls()
 //@   loop 2 invariant val == defaultValue
 //@   modifies *
+
+// C14 / C17: evaluating an analytic function never stores into a slice of the syntax tree (its argument list is shared with
+// the query that is being evaluated and with every later evaluation of it). COUNT(*) OVER () used to replace its argument
+// in place, after which the select list could not find the result column any more (fix in /repo: "COUNT(*) OVER () counts ...").
+//@ func Analyze
+//@   property C14 C17
+//@   abstract *
+//@   ownwrites E:parser.QueryExpression#
+//@   modifies *
